@@ -87,9 +87,10 @@ def unary_desc(draw):
     two_way = draw(st.integers(0, 3)) > 0
     if draw(st.integers(0, 3)) == 0:
         return ["StatPerm", {"kind": draw(st.sampled_from(["rot", "swap"])), "two_way": draw(st.booleans())}]
+    equiv = draw(st.integers(0, 5)) > 0
     if draw(st.booleans()):
-        return ["Reduce", {"xf": draw(st.sampled_from(XF)), "two_way": two_way}]
-    return ["StatXf", {"xf": draw(st.sampled_from(XF_NONID)), "two_way": two_way}]
+        return ["Reduce", {"xf": draw(st.sampled_from(XF)), "two_way": two_way, "equiv": equiv}]
+    return ["StatXf", {"xf": draw(st.sampled_from(XF_NONID)), "two_way": two_way, "equiv": equiv}]
 
 
 @st.composite
